@@ -1,5 +1,6 @@
 import Varint.Bridge.RLEDec
 import Varint.Bridge.FORDec
+import Varint.Bridge.Group
 import Varint.Lemmas.Adaptive
 import Varint.Lemmas.BP128
 import Varint.Lemmas.Dict
@@ -196,6 +197,28 @@ theorem c_for_decode_bounded (bs : List Nat) (hb : ∀ b ∈ bs, b < 256) (cap f
   refine ⟨h1, ?_⟩
   intro vs hd
   obtain ⟨e, _, hle⟩ := h2 vs hd
+  refine ⟨_, e, rfl, ?_⟩
+  intro p hp
+  have hfst : p.1 ∈ (Varint.Bridge.storesFrom 0 vs).map Prod.fst := List.mem_map_of_mem hp
+  rw [Varint.Bridge.storesFrom_fst] at hfst
+  have := List.mem_range'_1.mp hfst
+  omega
+
+
+/-- **`varintGroupDecode` on the translated C never writes beyond `maxFields`**: for ANY byte buffer the model reads
+    inside of and any capacity, either the field count is 0, above 64 or above the capacity and the C returns 0 without a
+    single store (not even `*fieldCount`), or it stores exactly values[0 … n-1] with n ≤ maxFields -/
+theorem c_group_decode_bounded (bs : List Nat) (hb : ∀ b ∈ bs, b < 256) (h64 : bs.length < 2 ^ 64) (cap fuel : Nat)
+    (hf : 64 < fuel) :
+    (Group.dec bs cap = some none →
+      Varint.Gen.C.groupDecode fuel (Varint.Bridge.Tagged.bufOf bs) cap = some (0, none, [])) ∧
+    (∀ vs consumed, Group.dec bs cap = some (some (vs, consumed)) →
+      ∃ st, Varint.Gen.C.groupDecode fuel (Varint.Bridge.Tagged.bufOf bs) cap = some (consumed, some vs.length, st) ∧
+        st = Varint.Bridge.storesFrom 0 vs ∧ ∀ p ∈ st, p.1 < cap) := by
+  obtain ⟨h1, h2⟩ := Varint.Bridge.Group.groupDecode_eq bs hb h64 cap fuel hf
+  refine ⟨h1, ?_⟩
+  intro vs consumed hd
+  obtain ⟨e, hle⟩ := h2 vs consumed hd
   refine ⟨_, e, rfl, ?_⟩
   intro p hp
   have hfst : p.1 ∈ (Varint.Bridge.storesFrom 0 vs).map Prod.fst := List.mem_map_of_mem hp
